@@ -24,6 +24,7 @@ inductive Ev
   | allocFail (v : Nat)   -- v = blobCreate(..) returned 0
   | resizeOk (v : Nat)    -- v = blobResize(v, ..) succeeded
   | resizeFail (v : Nat)  -- v = blobResize(v, ..) returned 0 (v overwritten with 0)
+  | resizeKeep (v : Nat)  -- t = blobResize(v, ..) returned 0 into a temporary: v keeps its block
   | close (v : Nat)       -- blobClose(v)
   | free (v : Nat)        -- memFree(v) / free(v)
   | setnull (v : Nat)     -- v = 0
@@ -102,6 +103,7 @@ def apply (s : St) : Ev → St
   | .allocFail v => { s.setv v .null with lost := s.lost || s.isLive v, failed := true }
   | .resizeOk v => s.setv v .live
   | .resizeFail v => { s.setv v .null with lost := s.lost || s.isLive v, failed := true }
+  | .resizeKeep _ => { s with failed := true }
   | .close v =>
     match s.st v with
     | .live => s.setv v .closed
